@@ -7,6 +7,9 @@ use std::panic::{catch_unwind, AssertUnwindSafe};
 
 mod util;
 mod c05;
+mod tables;
+mod dump;
+mod store;
 
 thread_local! {
     pub static LAST_PANIC: std::cell::RefCell<String> = std::cell::RefCell::new(String::new());
@@ -34,6 +37,8 @@ pub fn dispatch(line: &str) -> String {
         return "bad-request".to_string();
     }
     match toks[0] {
+        "tables" => tables::tables(&toks),
+        "store" => store::store(&toks),
         "getoffset" => c05::getoffset(&toks),
         "getoffset_full" => c05::getoffset_full(&toks),
         _ => "bad-request".to_string(),
@@ -55,9 +60,15 @@ fn main() {
         };
         LAST_PANIC.with(|p| *p.borrow_mut() = format!("{}|{}", loc, msg));
     }));
+    // replies go to the file named by `--out` (wellen itself prints warnings on stdout)
+    let args: Vec<String> = std::env::args().collect();
+    let out_path = args
+        .iter()
+        .position(|a| a == "--out")
+        .map(|i| args[i + 1].clone())
+        .unwrap_or_else(|| "/dev/stderr".to_string());
     let stdin = std::io::stdin();
-    let stdout = std::io::stdout();
-    let mut out = std::io::BufWriter::new(stdout.lock());
+    let mut out = std::io::BufWriter::new(std::fs::File::create(out_path).unwrap());
     for line in stdin.lock().lines() {
         let line = line.unwrap();
         let reply = match catch_unwind(AssertUnwindSafe(|| dispatch(&line))) {
